@@ -18,6 +18,7 @@ source dir through `..` behind a missing directory was reported absolute); it is
 strength and its old witness is a corpus case.
 -/
 import GrcovModel.Lemmas.Rewrite
+import GrcovModel.Props.C11Partial
 namespace Grcov.Props.C11
 open Grcov Grcov.UPath Grcov.Glob Grcov.Rewrite
 
